@@ -18,6 +18,14 @@ CHECK_DEADLOCK FALSE
 """
 
 
+CFG_TICK = """SPECIFICATION TSpec
+INVARIANT TCountInit
+INVARIANT TJudge
+POSTCONDITION Summary
+CHECK_DEADLOCK FALSE
+"""
+
+
 def data_module(bps, recs, consts):
     lines = ["---- MODULE Data ----", "EXTENDS Integers"]
     for k, v in consts.items():
